@@ -368,7 +368,20 @@ lzma_lzma2_encoder_memusage(const void *options)
 	if (lzma_mem == UINT64_MAX)
 		return UINT64_MAX;
 
-	return sizeof(lzma_lzma2_coder) + lzma_mem;
+	// lzma2_encoder_init() makes the LZ encoder keep at least
+	// LZMA2_CHUNK_MAX bytes of history so that uncompressed chunks
+	// can be created. With dictionaries smaller than that the history
+	// buffer becomes bigger than what lzma_lzma_encoder_memusage()
+	// assumes. Growing before_size by N bytes grows the buffer by
+	// N + N / 2 bytes (see lz_encoder_prepare()).
+	const lzma_options_lzma *opt = options;
+	uint64_t extra = 0;
+	if (opt->dict_size < LZMA2_CHUNK_MAX) {
+		extra = LZMA2_CHUNK_MAX - opt->dict_size;
+		extra += extra / 2;
+	}
+
+	return sizeof(lzma_lzma2_coder) + lzma_mem + extra;
 }
 
 
